@@ -99,7 +99,10 @@ pub(crate) struct Node {
 
     /// A node knows its own observers. This way, in order to schedule a notification at the end
     /// of stabilisation, all you need to do is add the node to a queue.
+    #[cfg(not(cormacrelf_incremental_rs_verif))]
     pub observers: RefCell<HashMap<ObserverId, Weak<dyn ErasedObserver>>>,
+    #[cfg(cormacrelf_incremental_rs_verif)]
+    pub observers: RefCell<crate::verif_audit::DetHashMap<ObserverId, Weak<dyn ErasedObserver>>>,
     pub on_update_handlers: RefCell<Vec<ErasedOnUpdateHandler>>,
     pub graphviz_user_data: RefCell<Option<BoxedDebugData>>,
 }
@@ -1688,7 +1691,10 @@ impl Node {
             // old_value_opt: RefCell::new(None),
             _kind: kind,
             parents: smallvec::smallvec![].into(),
+            #[cfg(not(cormacrelf_incremental_rs_verif))]
             observers: HashMap::new().into(),
+            #[cfg(cormacrelf_incremental_rs_verif)]
+            observers: crate::verif_audit::DetHashMap::default().into(),
             on_update_handlers: Default::default(),
             graphviz_user_data: None.into(),
             cutoff: cutoff.into(),
